@@ -56,6 +56,9 @@ TStep ==
    /\ Verd((ok /\ accept /\ ~Ev.inplace) => Deep(post, rpost[Ev.x]) = Deep(cp[1], cp[2]), "copy-result")
    /\ Verd((ok /\ accept) => Deep(post, rpost[Ev.x]) = Deep(cp[1], cp[2]), "C13_InplaceEqualsCopy")
    /\ Verd((ok /\ ~Ev.inplace) => \A q \in DOMAIN pre \cap DOMAIN post : post[q] = pre[q], "C13_CopyLeavesOriginal")
+   (* the result of a copying step consists of new objects: one that refers to a region / mesh of the original is a     *)
+   (* modification of the original waiting for the next in-place step                                                   *)
+   /\ Verd((ok /\ ~Ev.inplace) => Reach(post, {rpost[Ev.x]}) \cap DOMAIN pre = {}, "C13_CopyLeavesOriginal/result-shares-objects")
    /\ Verd(RegionsNormal(post), "C13_RegionNormal")
    /\ Verd(MeshesNormal(post), "C13_MeshNormal")
    /\ Verd(FieldsOK(post) \/ ~FieldsOK(pre), IF aliasP1 THEN "C13_FieldShapes/alias-P1" ELSE "C13_FieldShapes")
